@@ -148,12 +148,18 @@ func (m *MemRWSC) Name() string { return m.OpenName }
 type memInfo struct {
 	size int64
 	name string
+	dir  bool
 }
 
 func (s memInfo) Size() int64        { return s.size }
-func (s memInfo) Mode() fs.FileMode  { return 0o644 }
+func (s memInfo) Mode() fs.FileMode {
+	if s.dir {
+		return fs.ModeDir | 0o755
+	}
+	return 0o644
+}
 func (s memInfo) ModTime() time.Time { return time.Time{} }
-func (s memInfo) IsDir() bool        { return false }
+func (s memInfo) IsDir() bool        { return s.dir }
 func (s memInfo) Name() string       { return s.name }
 func (s memInfo) Sys() any           { return nil }
 
